@@ -45,13 +45,17 @@ def npairs(n):
     return n * (n - 1) // 2
 
 
+BASE = 5                         # MC_Routing: link digit 0 none, 1 patch (0 km, amplifier only), 2..4 = 50 / 140 / 300 km
+KINDS = BASE - 1
+
+
 def mesh_id(n, links):
-    """links: {(a, b): digit 1..3} with a < b -> the base-4 number MC_Routing.GraphOf decodes"""
+    """links: {(a, b): digit 1..4} with a < b -> the base-5 number MC_Routing.GraphOf decodes"""
     m = 0
     for (a, b), dgt in links.items():
         lo, hi = min(a, b), max(a, b)
         k = ((lo - 1) * (2 * n - lo)) // 2 + (hi - lo - 1)
-        m += dgt * 4 ** k
+        m += dgt * BASE ** k
     return m
 
 
@@ -62,21 +66,21 @@ def stratified_meshes(n, count, rng):
     out = set()
     share = max(1, count // len(strata))
     for k in strata:
-        size = 3 ** k * len(list(combinations(range(len(pairs)), k))) if len(pairs) <= 10 else 10 ** 9
+        size = KINDS ** k * len(list(combinations(range(len(pairs)), k))) if len(pairs) <= 10 else 10 ** 9
         want = min(share, size)
         tries = 0
         got = set()
         while len(got) < want and tries < 50 * want:
             tries += 1
             chosen = rng.sample(pairs, k)
-            got.add(mesh_id(n, {p: rng.randint(1, 3) for p in chosen}))
+            got.add(mesh_id(n, {p: rng.randint(1, KINDS) for p in chosen}))
         out |= got
     # top up with dense-ish meshes (most of the space) until count is reached
     tries = 0
     while len(out) < count and tries < 100 * count:
         tries += 1
         k = rng.randint(max(1, len(pairs) // 2), len(pairs))
-        out.add(mesh_id(n, {p: rng.randint(1, 3) for p in rng.sample(pairs, k)}))
+        out.add(mesh_id(n, {p: rng.randint(1, KINDS) for p in rng.sample(pairs, k)}))
     return sorted(out)
 
 
@@ -114,6 +118,14 @@ def parallel(*thunks):
     with ThreadPoolExecutor(max_workers=len(thunks)) as ex:
         futs = [ex.submit(t) for t in thunks]
         return [f.result() for f in futs]
+
+
+def background(thunk):
+    """start a long TLC run now, collect it later with .result()"""
+    ex = ThreadPoolExecutor(max_workers=1)
+    fut = ex.submit(thunk)
+    ex.shutdown(wait=False)
+    return fut
 
 
 def share(n):
@@ -191,24 +203,31 @@ def _alarm(signum, frame):
 class NetBench:
     """a designed network plus the generator's view of it: site numbers, arc of every fibre"""
 
-    def __init__(self, net, eq, roadm_site, trx_site, fibre_arc, trx_of_site, roadm_of_site):
+    def __init__(self, net, eq, roadm_site, trx_site, line_arc, trx_of_site, roadm_of_site):
+        """line_arc: uid of every line element the GENERATOR of the topology created -> (a, b) of its arc"""
         from gnpy.topology.spectrum_assignment import build_oms_list
         from gnpy.core.elements import Fiber
         self.net, self.eq = net, eq
         self.oms_list = build_oms_list(net, eq)          # as planning(): gives every line element its .oms
         self.roadm_site, self.trx_site = roadm_site, trx_site
         self.trx_of_site, self.roadm_of_site = trx_of_site, roadm_of_site
-        # fibres of the designed network (spans of a split fibre keep the original uid as prefix)
-        self.fibre_code = {}
-        self.fibres_of_arc = {}
-        base = sorted(fibre_arc, key=len, reverse=True)
+        # elements of the designed network that the generator created (spans of a split fibre keep the original
+        # uid as prefix); amplifiers inserted by auto-design carry no identity
+        self.fibre_code = {}                             # uid -> LineEl code
+        self.fibres_of_arc = {}                          # arc -> uids usable as include nodes (fibres first)
+        base = sorted(line_arc, key=len, reverse=True)
+        others = {}
         for el in net.nodes():
             if isinstance(el, Fiber):
                 b = next((u for u in base if el.uid == u or el.uid.startswith(u + '_(')), None)
-                if b is not None:
-                    a = fibre_arc[b]
-                    self.fibre_code[el.uid] = LINE * a[0] + a[1]
-                    self.fibres_of_arc.setdefault(a, []).append(el.uid)
+            else:
+                b = el.uid if el.uid in line_arc else None
+            if b is not None:
+                a = line_arc[b]
+                self.fibre_code[el.uid] = LINE * a[0] + a[1]
+                (self.fibres_of_arc if isinstance(el, Fiber) else others).setdefault(a, []).append(el.uid)
+        for a, v in others.items():
+            self.fibres_of_arc.setdefault(a, v)          # a fibre-less arc is named by its own amplifier / fused
         for v in self.fibres_of_arc.values():
             v.sort()
 
@@ -230,18 +249,20 @@ class NetBench:
                     seg['b'] = site
                     ob['hops'].append(seg)
                 ob['sites'].append(site)
-                seg = dict(a=site, b=0, fib=[], len=0.0)
+                seg = dict(a=site, b=0, ids=[], len=0.0)
             elif isinstance(e, Transceiver) and k in (0, len(path) - 1):
                 continue
             else:
                 if seg is None:                      # a line element before the first ROADM: not a route of this kind
-                    seg = dict(a=0, b=0, fib=[], len=0.0)
+                    seg = dict(a=0, b=0, ids=[], len=0.0)
                 if isinstance(e, Fiber):
-                    seg['fib'].append(self.fibre_code.get(e.uid, 0))
+                    seg['ids'].append(self.fibre_code.get(e.uid, 0))
                     seg['len'] += e.params.length
                 elif isinstance(e, Transceiver):
-                    seg['fib'].append(0)             # a transceiver in the middle of a route
-        if seg is not None and (seg['fib'] or seg['a'] == 0):
+                    seg['ids'].append(0)             # a transceiver in the middle of a route
+                elif e.uid in self.fibre_code:
+                    seg['ids'].append(self.fibre_code[e.uid])
+        if seg is not None and (seg['ids'] or seg['a'] == 0):
             ob['hops'].append(seg)                   # line elements after the last ROADM
         for h in ob['hops']:
             x = h['len'] / self.unit
@@ -256,7 +277,7 @@ class NetBench:
         if code > LINE:
             spans = self.fibres_of_arc.get((code // LINE, code % LINE))
             if not spans:
-                raise Machinery(f'no fibre for include code {code}')
+                raise Machinery(f'no line element for include code {code}')
             return spans[pick % len(spans)]
         return self.roadm_of_site[code]
 
@@ -336,15 +357,33 @@ class NetBench:
         return ev
 
 
+def mesh_json(n, arcs):
+    """legacy topology JSON of a generated mesh: Transceiver + Roadm per site; per arc one Fiber of km kilometres, or -
+    for a 0 km PATCH - one amplifier only (two ROADMs back to back: an OMS without any fibre)"""
+    data = line_or_mesh_json([str(k) for k in range(1, n + 1)], [])
+    line_arc = {}
+    for a, b, km in arcs:
+        if km > 0:
+            uid = f'fiber ({a} -> {b})'
+            data['elements'].append({'uid': uid, 'type': 'Fiber', 'type_variety': 'SSMF',
+                                     'params': {'length': km, 'length_units': 'km', 'loss_coef': 0.2,
+                                                'con_in': None, 'con_out': None}})
+        else:
+            uid = f'patch edfa ({a} -> {b})'
+            data['elements'].append({'uid': uid, 'type': 'Edfa', 'type_variety': 'std_medium_gain',
+                                     'operational': {'gain_target': None, 'tilt_target': 0, 'out_voa': None}})
+        data['connections'] += [{'from_node': f'roadm {a}', 'to_node': uid}, {'from_node': uid, 'to_node': f'roadm {b}'}]
+        line_arc[uid] = (a, b)
+    return data, line_arc
+
+
 def mesh_bench(n, arcs):
-    """generated mesh: sites '1'..'n', one fibre per direction; arcs = [[a, b, km], ...] both directions listed"""
+    """generated mesh: sites '1'..'n'; arcs = [[a, b, km], ...] both directions listed"""
     eq = equipment()
-    sites = [str(k) for k in range(1, n + 1)]
-    und = sorted({(min(a, b), max(a, b), km) for a, b, km in arcs})
-    net, _, _ = designed(line_or_mesh_json(sites, [(str(a), str(b), km) for a, b, km in und]), eq)
-    fibre_arc = {f'fiber ({a} -> {b})': (a, b) for a, b, _ in arcs}
+    data, line_arc = mesh_json(n, arcs)
+    net, _, _ = designed(data, eq)
     return NetBench(net, eq, {f'roadm {k}': k for k in range(1, n + 1)}, {f'trx {k}': k for k in range(1, n + 1)},
-                    fibre_arc, {k: f'trx {k}' for k in range(1, n + 1)}, {k: f'roadm {k}' for k in range(1, n + 1)})
+                    line_arc, {k: f'trx {k}' for k in range(1, n + 1)}, {k: f'roadm {k}' for k in range(1, n + 1)})
 
 
 def run_mesh_job(job):
@@ -428,7 +467,7 @@ def relevant(clause, req_idx, batch, pid):
     if req_idx == 0:
         return pid == 'C12' and clause in C12_BATCH_CLAUSES
     if req_idx in grouped:
-        return clause in (C12_MEMBER_CLAUSES if pid == 'C12' else C11_CLAUSES - {'StrictHopsCrossed'})
+        return clause in (C12_MEMBER_CLAUSES if pid == 'C12' else C11_CLAUSES)
     return pid == 'C11' and clause in C11_CLAUSES
 
 
@@ -594,8 +633,7 @@ def json_links(data):
                 raise Machinery(f'parallel links {u} -> {w}: outside the domain of the check')
             arcs.append([a[0], a[1], int(round(metres))])
             for f in chain:
-                if ty[f]['type'] == 'Fiber':
-                    fibre_arc[f] = a
+                fibre_arc[f] = a
     return site, trx_site, fibre_arc, arcs
 
 
